@@ -1,6 +1,6 @@
 //go:build verif
 
-package fp25519
+package fp25519_test
 
 // C06, mechanism "reduction of the peer value": Modp brings every peer value of
 // the C06 alphabets (after the bit-255 mask that Shared applies) to its canonical
@@ -11,20 +11,21 @@ import (
 
 	"github.com/cloudflare/circl/internal/verifc06"
 	"github.com/cloudflare/circl/internal/verifmc"
+	"github.com/cloudflare/circl/math/fp25519"
 )
 
 func TestVerifC06_modp_fp25519(t *testing.T) {
 	t.Parallel()
 	r := verifmc.Start(t, "C06", "modp_fp25519")
 	defer r.Finish()
-	verifc06.RunModp(r, verifc06.P25519, "fp25519", c06Backend(), func(b []byte) {
-		var e Elt
+	verifc06.RunModp(r, verifc06.P25519, "fp25519", func(b []byte) {
+		var e fp25519.Elt
 		copy(e[:], b)
-		Modp(&e)
+		fp25519.Modp(&e)
 		copy(b, e[:])
 	}, func(b []byte) bool {
-		var e Elt
+		var e fp25519.Elt
 		copy(e[:], b)
-		return IsZero(&e)
+		return fp25519.IsZero(&e)
 	})
 }
